@@ -92,6 +92,9 @@ pub fn run(ctx: &mut Ctx) {
         xs.intercept_stdout(true);
         xs.set_insn_limit(Some(LIMIT)).unwrap();
         let mut texts: Vec<String> = Vec::new();
+        // the text objects as submitted: a host may hand the very same `Xstr` to `evalxstr` again (repair 1b9fe09: the
+        // second submission used to be reported under the first one's name)
+        let mut xtexts: Vec<Xstr> = Vec::new();
         let nsources = ctx.rng.below(4) + 1;
         // a source that stayed on the interpreter's list (it ran, or failed only at run time) is often submitted again
         // verbatim: the location of the second failure must name the second buffer, not the first with equal text
@@ -142,7 +145,12 @@ pub fn run(ctx: &mut Ctx) {
             let expected_name = as_file.clone().unwrap_or_else(|| format!("<buffer#{}>", nsrc));
             let r = match &as_file {
                 Some(path) => if ctx.rng.bool() { crate::guarded(|| xs.eval_file(Xstr::from(path.as_str()))) } else { crate::guarded(|| xs.compile_file(Xstr::from(path.as_str())).and_then(|_| xs.run())) },
-                None => crate::guarded(|| xs.eval(&text)),
+                None => {
+                    let shared = xtexts.iter().find(|x| x.as_str() == text).cloned();
+                    let x: Xstr = match shared { Some(x) if ctx.rng.bool() => { ctx.tag("source:same-text-object-again"); x } _ => Xstr::from(text.as_str()) };
+                    xtexts.push(x.clone());
+                    crate::guarded(|| xs.evalxstr(x))
+                }
             };
             texts.push(text.clone());
             if !is_build_err && ctx.rng.chance(30) { again = Some(text.clone()); }
